@@ -90,7 +90,14 @@ class LeanSide:
             lock.close()
 
     def build(self) -> None:
-        rc, log = self._lake(["build", f"FV.Props.{self.pid}"] + self.drivers)
+        extra = []
+        try:                                   # the translator tie elaborates a generated file that imports FV.Tie.Basic
+            import tie_specs
+            if self.pid in tie_specs.BY_PROPERTY and os.path.exists(os.path.join(LEAN, "FV", "Tie", "Basic.lean")):
+                extra = ["FV.Tie.Basic"]
+        except Exception:
+            extra = []
+        rc, log = self._lake(["build", f"FV.Props.{self.pid}"] + extra + self.drivers)
         self.build_log = log[-6000:]
         self.build_ok = rc == 0
         if rc == 0:
